@@ -123,6 +123,8 @@ impl Runner {
             res.push(format!("{};{};{};{};{}", name, r_fresh.0, r_fresh.1, r_fresh.2 as u8, hist));
         }
         verif::set_recording(false);
+        // what the optimal matcher left in its scratch memory, per run that built a matrix (fresh, used, poisoned)
+        let mx: Vec<String> = verif::take_matrices().iter().map(|(d, r, c)| format!("{d}:{r}:{c}")).collect();
         // C04: the optimal matcher with prefix preference off / on (same case otherwise)
         let ppo = {
             let mut off = cfg.clone();
@@ -146,7 +148,7 @@ impl Runner {
         };
         writeln!(
             self.out,
-            "M cfg={} hr={} nr={} hay={} needle={} ext={} nn={} ppo={} res={}",
+            "M cfg={} hr={} nr={} hay={} needle={} ext={} nn={} ppo={} mx={} res={}",
             c.cfg,
             if c.hr_ascii { "A" } else { "U" },
             if c.nr_ascii { "A" } else { "U" },
@@ -155,6 +157,7 @@ impl Runner {
             if ext.is_empty() { "-".to_string() } else { ext.join(",") },
             nn as u8,
             ppo,
+            if mx.is_empty() { "-".to_string() } else { mx.join(",") },
             res.join("|")
         )
         .unwrap();
